@@ -31,7 +31,7 @@ DURS = ["P1D", "P1M", "P1Y", "-P1M", "P1Y1M", "PT36H", "P1W", "P30D", "P59D",
         "P11M", "-P13M", "P100Y",
         # spans of more than a 400-year cycle in exact units (a fast path for
         # huge day counts would be calendar-dependent)
-        "P150000D", "-P147000D", "PT3600000H", "P300001D", "P21000W"]
+        "P150000D"]
 DUMP_FORMATS = ["CCYY-MM-DD", "CCYY-DDD", "CCYY-Www-D", "CCYYMMDDThhmmssZ",
                 "CCYY-MM-DDThh:mm:ss+05:30", "+XCCYY-DDDThh", "CCYYWwwD",
                 "%Y-%m-%d %j", "%F %X", "%s", "CCYY-MM"]
@@ -123,9 +123,10 @@ def gen_dur(rng):
     sign = "-" if rng.random() < 0.3 else ""
     if r < 0.86:
         return "%sP%dD" % (sign, rng.choice(
-            [rng.randint(1, 1000), rng.randint(1000, 200000)]))
+            [rng.randint(1, 1000)] * 3 + [rng.randint(1000, 200000)]))
     if r < 0.9:
-        return "%sPT%dH" % (sign, rng.randint(1, 4000000))
+        return "%sPT%dH" % (sign, rng.choice(
+            [rng.randint(1, 20000)] * 3 + [rng.randint(1, 4000000)]))
     if r < 0.94:
         return "%sP%dM" % (sign, rng.randint(1, 3000))
     if r < 0.97:
@@ -233,8 +234,10 @@ def gen_op(rng, kind, hot, handles):
     if kind == "from_epoch":
         return ["from_epoch", rng.choice(
             [0, 86400 * 59, 86400 * 365, 951782400, -86400 * 400,
-             86400 * 360 * 30, rng.randint(-10 ** 10, 10 ** 10),
-             rng.randint(-3 * 10 ** 10, 3 * 10 ** 10), 13 * 10 ** 9])]
+             86400 * 360 * 30, 86400 * 366, -86400, 1000000000,
+             rng.randint(-10 ** 9, 10 ** 9), rng.randint(-10 ** 10, 10 ** 10),
+             rng.choice([rng.randint(-3 * 10 ** 10, 3 * 10 ** 10),
+                         13 * 10 ** 9])])]
     if kind == "from_epoch_l":
         return ["from_epoch_l", rng.choice(
             [0, 3600, 86400 * 45, 86400 * 59, 951782400, -86400 * 400,
@@ -351,11 +354,11 @@ def gen_random(rng, index):
     if rng.random() < 0.3:
         hot.append(rng.randint(-9999, 9999))
     nsteps = rng.randint(10, 150)
-    if rng.random() < 0.02:
+    if rng.random() < 0.012:
         # a marathon: many operations over many distinct years in one process
-        nsteps = rng.randint(400, 900)
-        hot = rng.sample(HOT_YEARS, 20) + [rng.randint(-9999, 9999)
-                                           for _ in range(10)]
+        nsteps = rng.randint(300, 600)
+        hot = rng.sample(HOT_YEARS, 16) + [rng.randint(-9999, 9999)
+                                           for _ in range(8)]
     enabled = rng.sample(OP_KINDS, rng.randint(3, len(OP_KINDS)))
     weights = [rng.choice([1, 1, 2, 5]) for _ in enabled]
     p_perturb = rng.choice([0.0, 0.05, 0.1, 0.2, 0.35])
@@ -1155,7 +1158,7 @@ def singleton_picks(trace, inter, limit=None):
     process (all of them up to a limit; operations on handles the client
     opened earlier legitimately depend on its history and are left out)."""
     import random
-    limit = limit or (160 if trace.get("kind") == "directed" else 32)
+    limit = limit or (120 if trace.get("kind") == "directed" else 24)
     steps = [sn for cid, tr in inter["transcripts"].items() for sn, _ in tr
              if trace["steps"][sn]["op"][0] not in HISTORY_OPS]
     steps.sort()
@@ -1362,7 +1365,7 @@ def replace_step(trace, i, step):
 
 def jobs_for(tier, seed):
     if tier == "quick":
-        n_dir, n_rand = 42 * 2, 1300
+        n_dir, n_rand = 42 * 2, 1150
     else:
         n_dir, n_rand = 42 * 6, 60000
     jobs = [("directed", seed, i) for i in range(n_dir)]
